@@ -8,6 +8,7 @@ mod r#gen;
 mod lin;
 mod doors;
 mod pipes;
+mod decls;
 mod total;
 mod rewrite;
 mod text;
@@ -232,6 +233,13 @@ fn main() {
             let cases = read_cases(&arg(&args, "--cases").expect("--cases"));
             for c in &cases {
                 writeln!(out, "{}", doors::doors_event(c)).unwrap();
+            }
+        }
+        // decls --cases F : one declaration through vars!, the builder methods and the text (C16)
+        "decls" => {
+            let cases = read_cases(&arg(&args, "--cases").expect("--cases"));
+            for c in &cases {
+                writeln!(out, "{}", decls::decls_event(c)).unwrap();
             }
         }
         // pipes --cases F : arbitrary pipe sequences of Pipes.tla through the real PipeRunner (C16)
